@@ -241,20 +241,32 @@ def check(run):
     sres = dict(zip(sidx, vlib.run_lines(model, sreq)))
     stats = {}
     nontrivial = set()
-    for k, (req, m, i, a) in enumerate(zip(cases, meta, impl, mod)):
-        if i.startswith("TOOL"):
-            run.report("spec-violation", dict(m, request=req), {"impl": i[:300]}, what="harness process died on this case")
-            continue
-        if len(run.violations) >= 12:
-            run.note("12 violations recorded; the remaining cases of this run are not evaluated")
-            break
-        ok = evaluate(run, req, m, i, a, stats)
-        if ok and sres.get(k, "OK") != "OK":
-            run.report("spec-violation", dict(m, request=req), {"impl": i.split(" ## ")[0][:400], "model": a[:200], "spec": sres[k]},
-                       what="encoder and decoder keep different numbers of dictionary bytes although the round trip happened to succeed")
-        v = parse(i)[4]
-        if m["dict_len"] > 0 and int(v.get("IN", 0)) > 0:
-            nontrivial.add(req)
+    # two passes, so that a changed set-up (model disagreement on many cases) never hides a concrete failing
+    # input behind the report cap: pass 1 reports property failures only (panic, round trip, positions), pass 2
+    # the disagreements with model/Dict.v
+    real_report = run.report
+    for phase in ("spec", "correspondence"):
+        def filtered(kind, *a, **kw):
+            if (kind == "correspondence") == (phase == "correspondence"):
+                real_report(kind, *a, **kw)
+        run.report = filtered
+        cap = 12 if phase == "spec" else len(run.violations) + 6
+        st = stats if phase == "spec" else {}
+        for k, (req, m, i, a) in enumerate(zip(cases, meta, impl, mod)):
+            if i.startswith("TOOL"):
+                run.report("spec-violation", dict(m, request=req), {"impl": i[:300]}, what="harness process died on this case")
+                continue
+            if len(run.violations) >= cap:
+                run.note("%d violations recorded; the remaining cases of this run are not evaluated for %s" % (len(run.violations), phase))
+                break
+            ok = evaluate(run, req, m, i, a, st)
+            if ok and sres.get(k, "OK") != "OK":
+                run.report("spec-violation", dict(m, request=req), {"impl": i.split(" ## ")[0][:400], "model": a[:200], "spec": sres[k]},
+                           what="encoder and decoder keep different numbers of dictionary bytes although the round trip happened to succeed")
+            v = parse(i)[4]
+            if m["dict_len"] > 0 and int(v.get("IN", 0)) > 0:
+                nontrivial.add(req)
+    run.report = real_report
     run.cov["evaluations"] = len(cases)
     run.cov["distinct_nontrivial"] = len(nontrivial)
     run.cov["rule"] = ("cases = (quality 0-11, lgwin 10-24, dictionary length class in {0,1,2,3,30,300,window-17,window-16,window-15,window+1000}, magic number, "
